@@ -127,7 +127,11 @@ def run_property(prop, tier, repo, replay=None):
         for o in ctx.obs:
             if o.verdict != NOTE:
                 counts[o.rule] = counts.get(o.rule, 0) + 1
+        # floors guard against a vacuous pass; a rule that has reported a violation may legitimately skip the obligations that build on the broken fact
+        violated_rules = {o.rule for o in ctx.obs if o.verdict == VIOLATED}
         for rid, n in floors.items():
+            if rid in violated_rules:
+                continue
             if counts.get(rid, 0) < n:
                 raise AnalysisError(
                     "rule %s matched %d instances, floor confirmed by hand is %d "
